@@ -560,8 +560,7 @@ def r4(ctx):
         ctx.ok(rule, "ExtensionFieldsInconsistent", detail)
 
 
-def r5(ctx):
-    rule = "C03.R5"
+def r5(ctx, rule="C03.R5"):
     ctx.rule(rule, "T6 constant provenance in write_sequence_constraint_insert_consts: EXTENDED_AFTER_FIELD <- extension_after_field, "
                    "FIELD_COUNT <- fields.len(), STD_OPTIONAL_FIELDS <- count over the same fields up to the extension marker, NAME <- name")
     P = ctx.program()
@@ -598,7 +597,7 @@ def r5(ctx):
             ctx.fail(rule, cname, "constant %s is printed from `%s`" % (cname, mine[:120]), "%s:%d" % (ic.file, line), detail)
         else:
             ctx.ok(rule, cname, detail)
-    ctx.floor(rule, n, "C03.R5.constants")
+    ctx.floor(rule, n, rule + ".constants")
     # the take_while bound is the extension marker
     cl = P.closures_of(ic)
     cm = []
@@ -687,5 +686,8 @@ def run(ctx):
     # the OPTIONAL / DEFAULT wrappers hide the enclosing scope on both sides while the value is transferred
     from .c01 import r2 as wrapper_symmetry
     wrapper_symmetry(ctx, rule="C03.R8", kinds=("opt", "default"))
+    # every component kind enters the enclosing SEQUENCE's bookkeeping at the same place on both sides (before the scope is
+    # stashed / pushed): the countdown to the extension additions counts components of every kind
+    wrapper_symmetry(ctx, rule="C03.R11", kinds=None, only_prefix="nest:bit_field_entry@")
     r9(ctx)
     r10(ctx)
